@@ -131,6 +131,8 @@ def check(ctx):
         for d in ((x, "dprint_float"), (x * (1 + 2.0 ** -30), "dprint_double"), (float(int(x)) + 0.5 if abs(x) < 1e15 else x, "dprint_double")):
             q = f64bits(d[0])
             script.append("Dpr %d %d %d %s" % (q >> 32, q & 0xffffffff, rng.randrange(0, 11), d[1])); nrender += 1
+            if rng.random() < 0.25:    # the same print through a sink that itself prints numbers after every character
+                script.append("Dprn" + script[-1][3:]); nrender += 1
             if not ctx.thorough and i % 3: break
         if i % 400 == 399: script.append("R")
     for x in (0.999, 0.9999999999, 1.999, 9.995, 0.5, 1.5, 2.5, 0.05, 1.0, 100.0, 0.0, -0.0, 1.005, 123456789.987654321, 18446744073709549568.0, float("inf"), float("-inf"), float("nan")):
@@ -196,7 +198,7 @@ def line_of(e):
         return "Parse %s %s %d" % (e["fn"], fmt(e["text"]), 0 if e["end"] == -1 else 1)
     if e["fn"].startswith("dprint"):
         q = f64bits(value_of(e, "x_"))
-        return "Dpr %d %d %d %s" % (q >> 32, q & 0xffffffff, e["prec"], e["fn"])
+        return "%s %d %d %d %s" % ("Dprn" if e.get("nested") else "Dpr", q >> 32, q & 0xffffffff, e["prec"], e["fn"])
     if e["fn"] == "f32toa":
         return "F32 %d %d" % (f32bits(value_of(e, "x_")), e["prec"])
     q = f64bits(value_of(e, "x_"))
